@@ -127,6 +127,8 @@ class DB:
         self.crates = []
         from .rename import reconcile
         self.renamed = reconcile(crates)            # {key in the analysed tree: key in the pinned tree} for renamed functions
+        from .rename import reconcile_fields
+        self.renamed_fields = reconcile_fields(crates)
         for c in crates:
             pkg = c["pkg"]
             self.crates.append({"pkg": pkg, "crate": c["crate"], "types": c["crate_types"],
